@@ -370,6 +370,43 @@ func Run(ctx *common.Ctx) int {
 		}
 	})
 	cmp.Count("longest run, byte entry point, 10000-bit regime: fillers with planted runs of 17..12000 ones/zeros", lbEvals)
+	// runs that start on and span power-of-two positions in long samples (a chunked / word-wise / parallel scan
+	// stitches its pieces exactly there): fillers of 2^18 and 10^6 bits with one planted run, all four calls
+	type planted struct{ n, k, j, L, off int }
+	var pl []planted
+	for _, n := range []int{1 << 18, 1000000} {
+		for k := 10; k <= 17; k++ {
+			for j := 1; j <= 3; j++ {
+				for _, L := range []int{1<<uint(k) - 1, 1 << uint(k), 1<<uint(k) + 1, 2 << uint(k)} {
+					for _, off := range []int{0, 1} {
+						if quick && (off == 1 && L != 1<<uint(k) || k%2 == 1 && n == 1000000) {
+							continue
+						}
+						if j<<uint(k)+off+L+1 < n {
+							pl = append(pl, planted{n, k, j, L, off})
+						}
+					}
+				}
+			}
+		}
+	}
+	var plEvals int64
+	common.ParFor(len(pl), func(i int) {
+		c := pl[i]
+		for _, sym := range []bool{true, false} {
+			bits := enum.Filler(c.n, uint64(ctx.Seed)+uint64(c.k))
+			start := c.j<<uint(c.k) + c.off
+			bits[start-1] = !sym
+			for t := 0; t < c.L; t++ {
+				bits[start+t] = sym
+			}
+			bits[start+c.L] = !sym
+			atomic.AddInt64(&plEvals, int64(dAll.One(bits, func() interface{} {
+				return map[string]interface{}{"n": c.n, "filler_seed": ctx.Seed + int64(c.k), "planted_run_of": sym, "run_start": start, "run_length": c.L}
+			})))
+		}
+	})
+	cmp.Count("fillers of 2^18 and 10^6 bits with one run planted at j*2^k (+0/+1), k=10..17, of length 2^k-1, 2^k, 2^k+1, 2^(k+1), both symbols (all four run-based calls)", plEvals)
 	cov := cmp.Coverage("runs total: every bit string n=1.."+fmt.Sprint(maxN)+"; runs distribution: every run-length word (prefix <=2(3) letters, suffix <=2 letters over {1..k+2,k+9}, both first symbols) at n in {100,101,1000,20000} and n_k-1, n_k for every cut-off k=3..9; "+
 		"longest run: every n in 128..8000, every ordered pair of 8-bit block contents at n=128..135, a block of every longest-run value in first/middle/last block and boundary-straddling runs in the 128- and 10000-bit regimes, both symbols; S2 periodic patterns with <=1(2) flips; "+
 		"distinct = distinct (call, reference P) pairs with 0<P<1", exhaustive,
